@@ -29,13 +29,19 @@ RULE = (
     "(prefix, postfix) round trips from every position, iterator conversions, key_comp/value_comp, a copy (all six relational operators both ways, no-op mutators, "
     "operator[] for maps), a mutated copy (original must be unchanged), assignment over a non-empty / empty target, clear; ledgers back to baseline afterwards. "
     "Mode A = closure (every history of any length) over the universe 0..K-1 with multiplicity cap M; mode B = depth-bounded BFS from the seeds bulk_load(n) of the odd keys "
-    "1,3,..,2n-1 (multi: every key R=2*leaf+1 times) with inserts of every gap key. %s")
+    "1,3,..,2n-1 (multi: every key R=2*leaf+1 times) with inserts of every gap key; mode S = closure over tree SHAPES for the unique-key kinds: the canonical state "
+    "keeps only the slot count of every node (and whether each separator equals the largest key below it), operations are rank-based (insert a fresh key into every gap, "
+    "also with a hint; erase by iterator / by key / erase_one at every rank; bulk_load(n) for every n <= N on the empty tree) and the size is capped at N, so EVERY valid "
+    "tree shape with at most N keys that is reachable below the cap is expanded once - three-level trees with every combination of node fills, i.e. all leaf and inner "
+    "shift/merge cases between siblings under the same or different parents (sound because the tree only compares keys: two trees of the same shape behave identically "
+    "under rank-based operations). %s")
 
 BOUNDS = {
-    "quick": "Quick: mode A (4,4) linear set K=12 (plain) / K=10 (ASan), (4,5) binary multimap K=3,M=3 with data values in the canonical form and K=4,M=4 with abstracted data "
+    "quick": "Quick: mode S (4,4) set N=25 (47 635 shapes, plain) and tracked set N=21 (ASan); mode A (4,4) linear set K=12 (plain) / K=10 (ASan), (4,5) binary multimap K=3,M=3 with data values in the canonical form and K=4,M=4 with abstracted data "
              "values, two-tree (4,4) set K=6, tracked (4,4) set K=9 and multimap K=3,M=4 under ASan; mode B for (4,4),(5,6),(8,8): depth 1 from every n<=3*leaf*(inner+1), "
              "depth 2 from n<=45 and around the first three-level size (plain), depth 1 from n<=60 + boundary sizes and depth 2 from n<=3*leaf (ASan).",
-    "thorough": "Thorough, plain -O2 build: mode A for capacities (4,4),(4,5),(5,4),(5,5),(6,4),(4,6) x 4 kinds x {linear+less, binary+greater} ((4,4): all four combinations): "
+    "thorough": "Thorough, plain -O2 build: mode S for (4,4) N=28, (4,5) N=26, (5,4) N=25, (5,5) N=25, (6,4) N=34, (4,6) N=27 (set linear/less; map binary/greater with N-1) and (6,6) N=36; "
+                "ASan: mode S tracked set (4,4) N=25 and tracked map (5,4) N=22; mode A for capacities (4,4),(4,5),(5,4),(5,5),(6,4),(4,6) x 4 kinds x {linear+less, binary+greater} ((4,4): all four combinations): "
                 "set/map K=14 for (4,4) (three-level trees), K=13 otherwise, multiset K=4,M=5, multimap K=4,M=5 (data values abstracted) and K=3,M=3 (exact); two-tree "
                 "configurations K=7 (multi: K=3,M=3); maps with 2 data values per key K=9; tracked elements K=12 / K=4,M=4 and mode B depth 2 from n<=40; mode B for every (leaf,inner) in [4..9]^2 with two "
                 "type configurations each (set+multimap or map+multiset, linear+less and binary+greater): depth 1 from every n<=3*leaf*(inner+1), depth 2 from every n<=64 (multi kinds without repeated seed keys: n<=54) and "
@@ -57,6 +63,8 @@ ASSUMPTIONS = [
     "iterator conversions (reverse_iterator(iterator), const variants, iterator(reverse_iterator)) follow the std convention tlx implements (rbegin()==reverse_iterator(end()), "
     "base()-like copy back); a wrong conversion is reported as <kind>.observe/iterator-conversion but does not make the state terminal (the tree is intact); "
     "const_iterator(const_reverse_iterator) cannot be instantiated on the current tree (missing friend) and is not exercised",
+    "mode S: keys are 32-bit integers chosen between their neighbours (ends: +-2^23 steps, interior: midpoints); an insertion into a gap that has no free integer left is not "
+    "offered and counted (stat shape_gap_exhausted, 0 in all registered configurations); multi containers are not explored in mode S (duplicates break the shape abstraction)",
     "a state whose transition violated an oracle is terminal; crashes under the semantic oracle are left to C02 (same exploration)",
 ]
 
